@@ -10,12 +10,19 @@ id="$1"; tier="$2"; shift 2
 # go command treats a missing entry as a cache miss).
 export GOCACHE="${VERIF_GOCACHE:-$PWD/.work/gocache}"
 mkdir -p "$GOCACHE"
-sz=$(du -sm "$GOCACHE" 2>/dev/null | cut -f1)
-if [ "${sz:-0}" -gt 15000 ]; then
-  find "$GOCACHE" -type f -mmin +90 -delete 2>/dev/null
+# Trimming must not race with a build of another run.sh: every invocation holds a shared lock
+# on the cache for its whole life (the check binary inherits the descriptor); trimming happens
+# only when an exclusive lock can be had at once, i.e. when nobody else is using the cache.
+exec 9>"$GOCACHE.lock"
+if command -v flock >/dev/null 2>&1 && flock -n -x 9; then
   sz=$(du -sm "$GOCACHE" 2>/dev/null | cut -f1)
-  if [ "${sz:-0}" -gt 30000 ]; then find "$GOCACHE" -type f -mmin +20 -delete 2>/dev/null; fi
+  if [ "${sz:-0}" -gt 15000 ]; then
+    find "$GOCACHE" -type f -mmin +90 -delete 2>/dev/null
+    sz=$(du -sm "$GOCACHE" 2>/dev/null | cut -f1)
+    if [ "${sz:-0}" -gt 30000 ]; then find "$GOCACHE" -type f -mmin +20 -delete 2>/dev/null; fi
+  fi
 fi
+command -v flock >/dev/null 2>&1 && flock -s 9
 lc=$(echo "$id" | tr 'A-Z' 'a-z')
 mkdir -p bin evidence replays
 # VERIF_REPO=<dir> runs the check against another copy of goadesign/goa (a scratch worktree
@@ -31,7 +38,8 @@ if [ -n "$VERIF_REPO" ] && [ "$VERIF_REPO" != "/repo" ]; then
   export VERIF_MODFILE="$PWD/.work/alt-$tag/go.mod"
   BIN="bin/$lc.alt-$tag"
 fi
-if ! go build $MODFLAG -tags verif -o "$BIN" "./cmd/$lc" >"bin/$lc.build.log" 2>&1; then
+if ! go build $MODFLAG -tags verif -o "$BIN" "./cmd/$lc" >"bin/$lc.build.log" 2>&1 &&
+   ! { sleep 1; go build $MODFLAG -tags verif -o "$BIN" "./cmd/$lc" >"bin/$lc.build.log" 2>&1; }; then
   cat "bin/$lc.build.log"
   echo "HARNESS-ERROR $id: check binary does not build against /repo"
   exit 2
